@@ -46,6 +46,7 @@ type c12Rule struct {
 	report   string    // "" = no Report()
 	suggest  string    // "" = no Suggest()
 	at       string    // "" = no At()
+	altLits  []string  // assertion stream: the piece of text each alternative was built around (parallel to alts)
 }
 
 // msg as irconv builds it: the Report template, or "suggestion: "+Suggest template
@@ -73,6 +74,9 @@ func c12Regexp(r *rand.Rand) string {
 		// pieces that begin, end or lie across line breaks (where go/scanner strips carriage returns) and kept `*\r/`
 		`(?P<a>W)\s+(?P<b>V)`, `(?P<a>\s+)W`, `W(?P<a>\s+)(?P<b>\S*)`, `(?s)(?P<a>W.+)`, `(?P<a>[^\n]*)\n(?P<b>[^\n]*)`, `\n(?P<a>[^\n]*)`,
 		`(?m)W(?P<a>.*)(?P<b>$)`, `(?m)(?P<a>^)(?P<b>.?)`, `(?P<a>\*)(?P<b>\r?)/`, `(?P<a>\r)`, `(?s)(?P<a>\n.*\n)`, `(?P<a>\S+)(?P<b>\s*)$`, `\n`, `(?s)W.*V`,
+		// group-less patterns whose match depends on where in the comment text the piece lies (the dedicated
+		// stream is c12AssertSets; these mix such rules with the rules above)
+		`^//W$`, `^// ?W`, `W$`, `\bW\b`, `\A/\* ?W ?\*/\z`, `(?m)^W$`, `^W|V$`, `\BW`, `W\s*\*/$`, `(?m)^//W|V$`,
 	}
 	s := t[r.Intn(len(t))]
 	return strings.NewReplacer("W", w, "V", v).Replace(s)
@@ -340,6 +344,421 @@ func c12File(r *rand.Rand, crlf bool) (src string, kinds []string) {
 	return sb.String(), kinds
 }
 
+// ---------------------------------------------------------------- position assertions
+//
+// Rules whose regexp says WHERE in the comment text a piece has to lie (`^…`, `…$`, `\A…\z`, `(?m)^…$`, `\b…\b`, the
+// comment markers spelled out: `^//…$`, `^/\*…\*/$`), mostly without capture groups (the runner's FindStringIndex path),
+// over comments that carry the piece at the start / in the middle / at the end / several times / glued to word
+// characters / in another case / on a line of its own inside a block comment / broken across lines / not at all.
+// The expectation is Go's regexp on Comment.Text, as everywhere in this file.
+
+// c12Lits: the pieces of text the patterns and the comments of one set are built around (no markers, no line breaks)
+var c12Lits = []string{"nolint", "nolint:errcheck", "TODO", "go:generate", "fallthrough", "foo", "a.b", "x+y", "fix me", "é", "世界", "ж", "b",
+	"TODO(bob)", "*", "no lint", "Deprecated:", "FIXME", "a", "[x]"}
+
+type c12Piece struct {
+	s string
+	m bool // an assertion about lines: needs the m flag
+}
+
+var c12Lefts = []c12Piece{{"", false}, {"^", false}, {`\A`, false}, {"^", true}, {`\b`, false}, {`\B`, false}, {"^//", false}, {"^// ?", false},
+	{`^/\*`, false}, {`\A/\* ?`, false}, {`^//\s*`, false}, {`^\s*\*? ?`, true}, {"^..", false}}
+
+var c12Rights = []c12Piece{{"", false}, {"$", false}, {`\z`, false}, {"$", true}, {`\b`, false}, {`\B`, false}, {`\*/$`, false}, {` ?\*/\z`, false},
+	{`\s*$`, false}, {`\n`, false}, {`\s*$`, true}}
+
+// the shapes of the part between the assertions; the last three have capture groups (FindStringSubmatchIndex path)
+var c12Cores = []string{"lit", "quoted", "noncap", "class", "alt", "alt-top", "rep", "dotstar", "opt-tail", "word", "empty", "ws", "fold", "dotall",
+	"group", "named", "named-tail"}
+
+func c12Core(kind, lit, other string) (core, flags string) {
+	q, q2 := regexp.QuoteMeta(lit), regexp.QuoteMeta(other)
+	switch kind {
+	case "quoted":
+		return `\Q` + lit + `\E`, ""
+	case "noncap":
+		return "(?:" + q + ")", ""
+	case "class":
+		rs := []rune(lit)
+		first := regexp.QuoteMeta(string(rs[0]))
+		if lo, up := strings.ToLower(string(rs[0])), strings.ToUpper(string(rs[0])); lo != up {
+			first = lo + up
+		}
+		return "[" + first + "]" + regexp.QuoteMeta(string(rs[1:])), ""
+	case "alt":
+		return "(?:" + q + "|" + q2 + ")", ""
+	case "alt-top": // the assertions bind to one branch each: `^W|V$`
+		return q + "|" + q2, ""
+	case "rep":
+		return q + "+", ""
+	case "dotstar":
+		return q + ".*" + q2, ""
+	case "opt-tail":
+		return q + `(?::\w+)?`, ""
+	case "word":
+		return `\w+`, ""
+	case "empty": // the assertions alone: empty matches
+		return "", ""
+	case "ws":
+		return `\s*` + q + `\s*`, ""
+	case "fold":
+		return q, "i"
+	case "dotall":
+		return q + ".*" + q2, "s"
+	case "group":
+		return "(" + q + ")", ""
+	case "named":
+		return "(?P<a>" + q + ")", ""
+	case "named-tail":
+		return q + `:?(?P<a>\w*)`, ""
+	}
+	return q, ""
+}
+
+// c12AssertPattern: flags + left assertion + core + right assertion.  Both assertions about lines: `(?m)` in front
+// (the usual spelling); one of them: scoped `(?m:^)`, so that the other one keeps talking about the text's ends.
+func c12AssertPattern(li, ci, ri int, lit, other string) string {
+	l, rt := c12Lefts[li], c12Rights[ri]
+	core, flags := c12Core(c12Cores[ci], lit, other)
+	ls, rs := l.s, rt.s
+	switch {
+	case l.m && rt.m:
+		flags = "m" + flags
+	case l.m:
+		ls = "(?m:^)" + strings.TrimPrefix(ls, "^")
+	case rt.m:
+		rs = strings.TrimSuffix(rs, "$") + "(?m:$)"
+	}
+	p := ls + core + rs
+	if flags != "" {
+		p = "(?" + flags + ")" + p
+	}
+	if _, err := regexp.Compile(p); err != nil || p == "" {
+		return regexp.QuoteMeta(lit)
+	}
+	return p
+}
+
+func c12SwapCase(s string) string {
+	rs := []rune(s)
+	for i, c := range rs {
+		if u := []rune(strings.ToUpper(string(c))); len(u) == 1 && u[0] != c {
+			rs[i] = u[0]
+		} else if l := []rune(strings.ToLower(string(c))); len(l) == 1 {
+			rs[i] = l[0]
+		}
+	}
+	return string(rs)
+}
+
+// c12Place: what stands between the comment markers, and which placement of lit that is.
+func c12Place(r *rand.Rand, lit, other, nl string) (body, kind string) {
+	w := func() string { return c12W(r) }
+	switch r.Intn(17) {
+	case 0, 1:
+		return lit, "exact"
+	case 2:
+		return lit + " " + w(), "start"
+	case 3:
+		return w() + " " + lit + " " + w(), "middle"
+	case 4:
+		return w() + " " + lit, "end"
+	case 5:
+		sep := []string{" ", "", ", ", " x ", "  "}[r.Intn(5)]
+		return strings.TrimSuffix(strings.Repeat(lit+sep, 2+r.Intn(2)), sep), "repeated"
+	case 6:
+		return []string{"x" + lit + "y", lit + "s", "_" + lit + "_", "9" + lit, lit + other, other + lit}[r.Intn(6)], "glued"
+	case 7:
+		return []string{c12SwapCase(lit), w() + " " + c12SwapCase(lit), strings.ToUpper(lit) + " " + lit}[r.Intn(3)], "case-variant"
+	case 8:
+		return w() + " " + w(), "absent"
+	case 9:
+		rs := []rune(lit)
+		return []string{string(rs[:len(rs)-1]), string(rs[1:]), string(rs[:len(rs)-1]) + " " + w()}[r.Intn(3)], "partial"
+	case 10:
+		return []string{lit + " " + other, other + " " + lit, other + ":" + lit}[r.Intn(3)], "with-other"
+	case 11:
+		return []string{w() + " //" + lit + " " + w(), "//" + lit, w() + " /*" + lit, "// " + lit + " " + w(), "/*" + lit + "* /"}[r.Intn(5)], "marker-inside"
+	case 12:
+		return []string{lit + ":", "(" + lit + ")", lit + ".", "-" + lit, lit + ":" + w(), lit + ", " + lit + "."}[r.Intn(6)], "punct-adjacent"
+	case 13:
+		return lit + []string{" ", "\t", "  "}[r.Intn(3)], "trailing-space"
+	}
+	switch r.Intn(9) { // a block comment over several lines
+	case 0:
+		return nl + lit + nl, "lines:own-line"
+	case 1:
+		return " " + w() + nl + lit + nl + w() + " ", "lines:own-line-between"
+	case 2:
+		return nl + " * " + lit + nl + " ", "lines:starred"
+	case 3:
+		return lit + nl + lit, "lines:first-and-last"
+	case 4:
+		return " " + w() + " " + lit + nl + lit + " " + w() + " ", "lines:end-of-line-and-start-of-next"
+	case 5:
+		rs := []rune(lit)
+		k := len(rs) / 2
+		return " " + string(rs[:k]) + nl + string(rs[k:]) + " ", "lines:broken-across"
+	case 6:
+		return " " + w() + nl + lit, "lines:last-line"
+	case 7:
+		return lit + nl + " " + w() + " ", "lines:first-line"
+	}
+	return " " + w() + nl + " " + lit + " " + w() + nl + nl + lit + " ", "lines:indented-and-after-blank"
+}
+
+// c12AssertComment: one comment (source text) around lit; block says it can be followed by something on its line.
+func c12AssertComment(r *rand.Rand, lit, other, nl string) (cm string, kind string, inline bool) {
+	if r.Intn(5) == 0 {
+		lit, other = other, lit
+	}
+	body, kind := c12Place(r, lit, other, nl)
+	multi := strings.Contains(body, "\n")
+	if multi {
+		body = strings.ReplaceAll(body, "*/", "* /")
+	}
+	block := multi || (r.Intn(2) == 0 && !strings.Contains(body, "*/"))
+	pad := ""
+	if !multi && r.Intn(2) == 0 {
+		pad = " "
+	}
+	switch {
+	case block && pad == "":
+		return "/*" + body + "*/", kind + ":block", !multi
+	case block:
+		return "/* " + body + " */", kind + ":block-spaced", !multi
+	case pad == "":
+		return "//" + body, kind + ":line", false
+	}
+	return "// " + body, kind + ":line-spaced", false
+}
+
+func c12AssertFile(r *rand.Rand, lit, other string, crlf, small bool) (string, []string) {
+	nl := "\n"
+	var kinds []string
+	if crlf {
+		nl = "\r\n"
+		kinds = append(kinds, "crlf")
+	}
+	n := 3 + r.Intn(6)
+	if small {
+		n = 1 + r.Intn(3)
+	}
+	var sb strings.Builder
+	one := func() (string, bool) {
+		cm, kind, inline := c12AssertComment(r, lit, other, nl)
+		kinds = append(kinds, "assert:"+kind)
+		return cm, inline
+	}
+	if r.Intn(4) == 0 {
+		cm, _ := one()
+		sb.WriteString(cm + nl)
+		kinds = append(kinds, "offset0")
+	}
+	sb.WriteString("package p" + nl)
+	for i := 0; i < n; i++ {
+		cm, inline := one()
+		last := i == n-1
+		switch lay := r.Intn(8); {
+		case lay == 0:
+			fmt.Fprintf(&sb, "var a%d = %d %s", i, i, cm)
+			kinds = append(kinds, "trailing")
+		case lay == 1 && inline:
+			cm2, _ := one()
+			sb.WriteString(cm + cm2)
+			kinds = append(kinds, "adjacent")
+		case lay == 2 && inline:
+			fmt.Fprintf(&sb, "func f%d( %s a int) {}", i, cm)
+			kinds = append(kinds, "inside-func")
+		case lay == 3 && !inline && !strings.HasPrefix(cm, "/*"): // consecutive `//` lines: one comment each
+			cm2, _, _ := c12AssertComment(r, lit, other, nl)
+			if strings.HasPrefix(cm2, "//") {
+				sb.WriteString(cm2 + nl)
+				kinds = append(kinds, "line-group")
+			}
+			sb.WriteString(cm)
+		default:
+			sb.WriteString(cm)
+		}
+		if last && r.Intn(3) == 0 {
+			kinds = append(kinds, "eof")
+		} else {
+			sb.WriteString(nl)
+		}
+	}
+	return sb.String(), kinds
+}
+
+type c12Set struct {
+	rules  []c12Rule
+	files  []string
+	kinds  [][]string // per file; nil: hand-picked
+	assert bool
+}
+
+// c12AssertSets: n rule sets with their files.  The first alternative of two sets in three takes the next element of the
+// shuffled product cores x left assertions x right assertions (the thorough tier goes through all of it); the first
+// alternative of every third set, and the other alternatives and rules of every set, are drawn, half of them from the shapes people write (`^//W$`, `\AW\z`, `^// ?W\b`, plain W,
+// `W:(?P<a>\w*)`), all around the same one or two pieces, so that several rules of a set want the same comment.
+// The first sets are small (one rule, one alternative, a few comments).
+func c12AssertSets(r *rand.Rand, n int) []c12Set {
+	type tri struct{ c, l, r int }
+	var prod []tri
+	for c := range c12Cores {
+		for l := range c12Lefts {
+			for rt := range c12Rights {
+				prod = append(prod, tri{c, l, rt})
+			}
+		}
+	}
+	r.Shuffle(len(prod), func(i, j int) { prod[i], prod[j] = prod[j], prod[i] })
+	usualC, usualL, usualR := []int{0, 0, 0, 1, 2, 16}, []int{0, 1, 1, 2, 6, 6, 7, 8}, []int{0, 1, 1, 2, 4, 6}
+	var out []c12Set
+	for i := 0; i < n; i++ {
+		small := i < n/5
+		lit := c12Lits[r.Intn(len(c12Lits))]
+		other := c12Lits[r.Intn(len(c12Lits))]
+		if r.Intn(3) == 0 {
+			other = c12W(r)
+		}
+		nr := 1
+		if !small {
+			nr = 1 + r.Intn(4)
+		}
+		// two sets in three have a rule that takes every comment with the piece in it (plain, or with groups), mostly
+		// after the others: it reports exactly the comments the rules before it turn down, and is silent for the others
+		catchAll := -1
+		if !small && r.Intn(3) > 0 {
+			nr++
+			catchAll = nr - 1
+			if r.Intn(3) == 0 {
+				catchAll = r.Intn(nr)
+			}
+		}
+		var rules []c12Rule
+		for k := 0; k < nr; k++ {
+			rule := c12Rule{group: fmt.Sprintf("g%d", k/2)}
+			na := 1
+			if !small && r.Intn(4) == 0 && k != catchAll {
+				na = 2 + r.Intn(2)
+			}
+			for a := 0; a < na; a++ {
+				if k == catchAll {
+					rule.alts = append(rule.alts, c12AssertPattern(0, []int{0, 0, 15, 16}[r.Intn(4)], 0, lit, other))
+					rule.altLits = append(rule.altLits, lit)
+					continue
+				}
+				t := prod[r.Intn(len(prod))]
+				usual := tri{usualC[r.Intn(len(usualC))], usualL[r.Intn(len(usualL))], usualR[r.Intn(len(usualR))]}
+				switch {
+				case k == 0 && a == 0 && i%3 != 2:
+					t = prod[(i-i/3)%len(prod)]
+				case k == 0 && a == 0, r.Intn(2) == 0:
+					t = usual
+				}
+				l, o := lit, other
+				if (k > 0 || a > 0) && r.Intn(4) == 0 {
+					l, o = o, l
+				}
+				rule.alts = append(rule.alts, c12AssertPattern(t.l, t.c, t.r, l, o))
+				rule.altLits = append(rule.altLits, l)
+			}
+			var common []string // names every alternative has
+			for _, nm := range c12Names(regexp.MustCompile(rule.alts[0])) {
+				all := true
+				for _, p := range rule.alts[1:] {
+					has := false
+					for _, x := range c12Names(regexp.MustCompile(p)) {
+						has = has || x == nm
+					}
+					all = all && has
+				}
+				if all {
+					common = append(common, nm)
+				}
+			}
+			switch r.Intn(4) {
+			case 0:
+				rule.suggest = c12Template(r, common)
+			case 1:
+				rule.report, rule.suggest = c12Template(r, common), c12Template(r, common)
+			default:
+				rule.report = c12Template(r, common)
+			}
+			if !small && r.Intn(3) == 0 { // a filter on the texts: a regexp match the rule then rejects hands the comment to the next rule
+				vars := append([]string{"$$", "$$"}, common...)
+				for j := 1 + r.Intn(2); j > 0; j-- {
+					vals := []string{lit, "//" + lit, "// " + lit, "/*" + lit + "*/", other, "", c12W(r)}
+					rule.filter = append(rule.filter, c12Atom{eq: r.Intn(2) == 0, vr: vars[r.Intn(len(vars))], lit: vals[r.Intn(len(vals))]})
+				}
+			}
+			if len(common) > 0 && r.Intn(3) == 0 {
+				rule.at = common[r.Intn(len(common))]
+			}
+			rules = append(rules, rule)
+		}
+		set := c12Set{rules: rules, assert: true}
+		nf := 3
+		if small {
+			nf = 2
+		}
+		for f := 0; f < nf; f++ {
+			src, kinds := c12AssertFile(r, lit, other, f == 2 || (small && f == 1 && i%3 == 0), small)
+			set.files = append(set.files, src)
+			set.kinds = append(set.kinds, kinds)
+		}
+		out = append(out, set)
+	}
+	return out
+}
+
+// c12AssertDist records, for one comment of an assertion set, how each alternative's regexp relates to plain
+// containment of its piece, and how many alternatives / rules want the comment.
+func c12AssertDist(res *hx.Result, flat []c12Loaded, text string) {
+	nAlts, rulesSeen := 0, map[*c12Rule]bool{}
+	for _, l := range flat {
+		lit := l.rule.altLits[l.alt]
+		path := "fast"
+		if l.cg {
+			path = "groups"
+		}
+		at := strings.Index(text, lit)
+		m := l.re.FindStringIndex(text)
+		class := ""
+		switch {
+		case m == nil && at < 0:
+			class = "piece-absent:no-match"
+		case m == nil:
+			class = "piece-present:regexp-rejects"
+		case at < 0:
+			class = "piece-absent:regexp-matches"
+		case m[0] == at && m[1] == at+len(lit):
+			class = "match-is-first-occurrence"
+		case m[0] == m[1]:
+			class = "empty-match"
+		case m[0] > at && m[1]-m[0] == len(lit):
+			class = "match-is-a-later-occurrence"
+		default:
+			class = "match-wider-or-elsewhere"
+		}
+		res.Dist("assert-alt:" + path + ":" + class)
+		if m != nil {
+			nAlts++
+			rulesSeen[l.rule] = true
+		}
+	}
+	switch {
+	case len(rulesSeen) > 1:
+		res.Dist("assert-comment:regexps-of-several-rules-match")
+	case nAlts > 1:
+		res.Dist("assert-comment:several-alternatives-of-one-rule-match")
+	case nAlts == 1:
+		res.Dist("assert-comment:one-alternative-matches")
+	default:
+		res.Dist("assert-comment:nothing-matches")
+	}
+}
+
 // ---------------------------------------------------------------- carriage returns: the harness's own arithmetic
 
 // c12RawEnd: where the source bytes of the comment starting at src[start] end (what go/scanner takes as `lit`).
@@ -459,9 +878,9 @@ func c12ShowReport(r hx.Report, lineOf map[string]int) string {
 
 func runC12(c *Ctx) error {
 	res := c.Res
-	nSets, nFiles := 250, 8
+	nSets, nFiles, nAssert := 250, 8, 300
 	if c.Thorough {
-		nSets, nFiles = 6000, 12
+		nSets, nFiles, nAssert = 6000, 12, 3*len(c12Cores)*len(c12Lefts)*len(c12Rights)/2+1
 	}
 	res.Rule = fmt.Sprintf("(0) scantext: ast.Comment.Text of go/parser vs the model of go/scanner's CR stripping, on generated comments with carriage returns in every position and on every comment of the e2e files; "+
 		"textspan: commentTextSpan through the hook vs the model, on generated (source, comment text, index pair) incl. sources that are not the text's, no source, indices out of range; "+
@@ -469,9 +888,12 @@ func runC12(c *Ctx) error {
 		"(2) e2e: %d generated MatchComment rule sets (named / unnamed / non-participating / nested / duplicate-name groups, Where on group texts, Report/Suggest templates, At) x %d generated files each "+
 		"(line, block, multi-line, adjacent, trailing, inside-function comments, multi-byte prefixes, a comment at offset 0, a comment ending at EOF; CRLF files with block comments over several lines, stray carriage returns, kept `*\\r/`; in memory and on disk) through Engine.Run: "+
 		"every comment's report (Pos, End, Message, Suggestion, rule line) or absence of one vs model `runCommentRules` fed with the real regexp's index vectors; "+
+		"(2a) the same for %d position-assertion rule sets: patterns = 17 shapes (plain / quoted / non-capturing / class / alternation / repetition / case-folded / empty literal pieces, three with groups) x 13 left x 11 right assertions "+
+		"(`^`, `\\A`, `(?m)^`, `\\b`, `\\B`, spelled-out comment markers, `$`, `\\z`, `(?m)$`, …), several rules and alternatives around the same piece, Where on `$$`, over comments with the piece alone / at the start / in the middle / at the end / "+
+		"repeated / glued to word characters / in another case / partial / after a nested marker / on its own line of a block comment / broken across lines / absent, LF and CRLF, in memory and on disk; "+
 		"(3) the executable statement `spec12` on every implementation report (precondition: the runner can read the file, or no carriage return was stripped from the comment); "+
 		"(4) every Suggest is applied to the file's bytes and the edited file compared with the file edited at the bytes the match stands for (harness's own arithmetic), and, carriage returns ignored, with the edit done on the comment text. "+
-		"Distinct by (rule set, file, comment); non-trivial when some rule's regexp matches the comment.", nSets, nFiles)
+		"Distinct by (rule set, file, comment); non-trivial when some rule's regexp matches the comment.", nSets, nFiles, nAssert)
 
 	if err := c12Scan(c); err != nil {
 		return err
@@ -480,7 +902,7 @@ func runC12(c *Ctx) error {
 	if err := c12HasCap(c); err != nil {
 		return err
 	}
-	if err := c12E2E(c, nSets, nFiles); err != nil {
+	if err := c12E2E(c, nSets, nFiles, nAssert); err != nil {
 		return err
 	}
 	return c12Malformed(c)
@@ -669,7 +1091,7 @@ func c12FixedCases() []c12Case {
 	}
 }
 
-func c12E2E(c *Ctx, nSets, nFiles int) error {
+func c12E2E(c *Ctx, nSets, nFiles, nAssert int) error {
 	res := c.Res
 	r := hx.Rng(c.Seed, "c12-e2e")
 	tmp, err := os.MkdirTemp("", "c12-")
@@ -681,13 +1103,19 @@ func c12E2E(c *Ctx, nSets, nFiles int) error {
 	var inputs []interface{}
 	var scanOps, scanImpl []string
 	var scanInputs []interface{}
-	fixed := c12FixedCases()
+	var fixed []c12Set
+	for _, f := range c12FixedCases() {
+		fixed = append(fixed, c12Set{rules: f.rules, files: f.files})
+	}
+	fixed = append(fixed, c12AssertSets(hx.Rng(c.Seed, "c12-assert"), nAssert)...)
 	for si := 0; si < nSets+len(fixed); si++ {
-		// a rule set: 1..3 groups of 1..3 rules (after the hand-picked small cases)
+		// a rule set: 1..3 groups of 1..3 rules (after the hand-picked small cases and the position-assertion sets)
 		var rules []c12Rule
 		var fixedFiles []string
+		var fixedKinds [][]string
+		assert := false
 		if si < len(fixed) {
-			rules, fixedFiles = fixed[si].rules, fixed[si].files
+			rules, fixedFiles, fixedKinds, assert = fixed[si].rules, fixed[si].files, fixed[si].kinds, fixed[si].assert
 		} else {
 			ng := 1 + r.Intn(3)
 			for g := 0; g < ng; g++ {
@@ -720,6 +1148,9 @@ func c12E2E(c *Ctx, nSets, nFiles int) error {
 			var kinds []string
 			if fixedFiles != nil {
 				src, kinds = fixedFiles[fi/2], []string{"hand-picked"}
+				if fixedKinds != nil {
+					kinds = append([]string{"assert-set"}, fixedKinds[fi/2]...)
+				}
 			} else {
 				src, kinds = c12File(r, crlf)
 			}
@@ -823,6 +1254,9 @@ func c12E2E(c *Ctx, nSets, nFiles int) error {
 				for _, l := range flat {
 					matched = matched || l.re.MatchString(cc.text)
 				}
+				if assert && !onDisk {
+					c12AssertDist(res, flat, cc.text)
+				}
 				res.Count("e2e", fmt.Sprintf("%d/%d/%d", si, fi, ci), matched)
 				if got == "none" {
 					res.Dist("comment:no-report")
@@ -879,7 +1313,8 @@ func c12E2E(c *Ctx, nSets, nFiles int) error {
 			switch {
 			case clause == "rule-line":
 				sig = "loadCommentRule:reports-the-rule-line-not-the-alternative-line"
-			case crStripped:
+			case crStripped && (clause == "span" || clause == "span-bytes" || clause == "suggest-span"):
+				// (which rule reports, and with which texts, does not depend on where the carriage returns were)
 				sig = "runCommentRules:CR-stripped-comment-text:offsets-into-Text-used-as-file-offsets"
 			}
 			res.Dist("spec12:" + clause)
